@@ -17,9 +17,13 @@ def run(tier, replay=None):
               "rsq 0..4, code 404/503/410, rep filter */V300/A48/V300,A48, window at the start of the stream or at 1.75e9 s); "
               "every video segment and the audio segment following it over >= 5 cycles is requested once at its availability "
               "instant + 1 ms. traffic: scenario = (asset, 1-3 patterns over u/d/s/h with durations 1/2/10, start in "
-              "{0,1000,1007}, sub-second offset); the MPD's BaseURLs are read and a segment is requested through each at every "
-              "second of 2 cycles (slow/hang seconds sampled on interval edges). distinct = distinct (configuration, "
-              "representation, segment) + distinct (traffic pattern, second of its cycle)")
+              "{0,1000,1007}, sub-second offset, MPD type number/time/timeline-number, single period or periods_N with N in "
+              "{60,120,30,20,18} with/without continuous_1 at instants deep in an hour); at every second of 2 cycles the MPD is "
+              "fetched (every Period must offer one BaseURL per pattern) and a segment is requested through each BaseURL with a URL "
+              "built from that MPD (BaseURL of the Period containing the segment + SegmentTemplate@media + Representation@id; "
+              "slow/hang seconds sampled on interval edges); every 4th statuscode scenario carries periods_N and builds its URLs "
+              "from the multi-period MPD. distinct = distinct (configuration, representation, segment) + distinct (traffic "
+              "pattern, second of its cycle) + distinct (MPD configuration, number of periods)")
     c.assumptions = [
         "cycles may be counted from media time 0 (availabilityStartTime) or from the start of the first segment (assets whose "
         "first decode time is not 0): both readings accepted",
@@ -27,6 +31,10 @@ def run(tier, replay=None):
         "the cycle of a traffic pattern may be anchored at the epoch or at availabilityStartTime, consistently within a scenario",
         "slow = normal answer after >= 1 s, hanging = 503 after >= 5 s (the text gives no figures; livesim2 documents 2 s / 10 s); "
         "an 'up' answer must take < 1 s (minimum of up to 4 attempts, the machine is shared)",
+        "the names of the BaseURLs (bu<i>/) are not demanded: every Period must list one distinct BaseURL per pattern, the same "
+        "list in all Periods, and BaseURL number b must behave as pattern number b",
+        "the value of $Number$/$Time$ put into the MPD's template is the driver's (newest available segment, or one 25 s older); "
+        "a statuscode scenario whose multi-period MPD has no usable Period/template falls back to the hand-built URL (counted)",
         "every request is issued when its segment is available (the order of availability check and fault injection is not "
         "fixed by the text)",
         "audio $Time$ requests under start_<t> are not issued (refused 410 by the C04 finding findRefSegMetaFromTime)",
@@ -91,6 +99,9 @@ def run(tier, replay=None):
     missing = [k for k in need if tot.get(k, 0) == 0]
     if missing:
         raise MachineryError(f"vacuity: no event for clause classes {missing} (counts {tot})")
+    if not st.get("multi_period_mpds") or not st.get("status_urls_from_mpd"):
+        raise MachineryError(f"vacuity: no multi-period MPD observed / no statuscode URL derived from an MPD "
+                             f"({st.get('multi_period_mpds')}, {st.get('status_urls_from_mpd')})")
     c.traces += st["scenarios"]
     c.distinct_nontrivial = st["distinct"]
     c.samples = st.get("samples", [])
@@ -101,4 +112,7 @@ def run(tier, replay=None):
     c.extra["traffic_scenarios"] = st.get("traffic_scenarios")
     c.extra["slow_or_hang_requests"] = st.get("sleeping_requests")
     c.extra["unanswered_requests_by_class"] = st.get("unanswered")
+    c.extra["multi_period_mpds_observed"] = st.get("multi_period_mpds")
+    c.extra["statuscode_urls_derived_from_multi_period_mpd"] = st.get("status_urls_from_mpd")
+    c.extra["statuscode_urls_hand_built_because_mpd_unusable"] = st.get("status_urls_fallback")
     return c.finish()
